@@ -32,7 +32,7 @@ pub struct Location { pub max_cut: MaxCut, pub segment: SegmentIndex }
 impl Location {
     pub fn new(segment: SegmentIndex, max_cut: MaxCut) -> (r: Self) ensures r == (Location { max_cut, segment }) { Location { max_cut, segment } }
 }
-pub enum SyncError { Bug, CommandOverflow, BufferTooSmall, Storage, Serialize, SessionState }
+pub enum SyncError { Bug, CommandOverflow, BufferTooSmall, Storage, Serialize, SessionState, NotReady }
 #[derive(Copy, Clone)]
 pub struct GraphId { pub id: u64 }
 pub const COMMAND_RESPONSE_MAX: usize = CRM;
@@ -150,6 +150,7 @@ pub struct SyncResponder {
     pub next_send: usize,
     pub message_index: usize,
     pub to_send: Vec<Location, SEGMENT_BUFFER_MAX>,
+    pub has: HasVec,
 }
 
 // ---- wire format (assumed contract of SyncResponder::write / postcard) ------------------------
@@ -205,6 +206,30 @@ pub open spec fn next_ok(hdr: Seq<u8>, o: SyncResponder, f: SyncResponder) -> bo
         &&& f.next_send >= o.next_send
         &&& (wire_ids(hdr).len() == COMMAND_RESPONSE_MAX || f.next_send >= f.to_send@.len())
     }
+}
+
+// ---- push (unsolicited update to a subscribed peer) -------------------------------------------
+pub struct TraversalBuffers { pub _p: () }
+pub struct HasVec { pub _p: () }
+pub enum SyncType { Push { message: SyncResponseMessage, graph_id: GraphId } }
+impl SyncResponder {
+    /// find_needed_segments (not under contract): yields locations of the responder's own storage
+    #[verifier::external_body]
+    pub fn find_needed_segments(has: &HasVec, storage: &Storage, buffers: &mut TraversalBuffers) -> (r: Result<Vec<Location, SEGMENT_BUFFER_MAX>, SyncError>)
+        ensures r is Ok ==> r->Ok_0.wf() && all_valid(r->Ok_0@, 0)
+    { unimplemented!() }
+    #[verifier::external_body]
+    pub fn write_sync_type(target: &mut [u8], message: SyncType) -> (r: Result<usize, SyncError>)
+        ensures final(target)@.len() == old(target)@.len(),
+            r is Ok ==> r->Ok_0 <= final(target)@.len() && ({
+                let hdr = final(target)@.subrange(0, r->Ok_0 as int);
+                match message {
+                    SyncType::Push { message: SyncResponseMessage::SyncResponse { session_id, response_index, commands }, graph_id } =>
+                        wire_is_response(hdr) && wire_index(hdr) == response_index && wire_ids(hdr) == ids(commands@),
+                    _ => true,
+                }
+            }),
+    { unimplemented!() }
 }
 
 // ---- lemmas about `remaining` ---------------------------------------------------------------
@@ -416,6 +441,40 @@ GET_NEXT = FnSpec(
         }"""),
     ])
 
+PUSH = FnSpec(
+    FILE, 'push', r'impl SyncResponder\b', attrs='#[verifier::spinoff_prover]',
+    sig_rewrites=[('provider: &mut impl StorageProvider', 'provider: &mut Provider', 1, 'R6')],
+    contract="""
+        requires old(self).message_index < usize::MAX, old(self).to_send.wf(),
+        ensures
+            final(self).to_send.wf(),
+            // a failure does not move the index
+            r is Err ==> final(self).message_index == old(self).message_index,
+            // either nothing was pushed, or one message carrying the current index was written and the index grew by one
+            r is Ok ==> final(self).message_index == old(self).message_index
+                || (final(self).message_index == old(self).message_index + 1
+                    && exists|h: int| 0 <= h <= r->Ok_0 && h <= final(target)@.len()
+                        && wire_is_response(#[trigger] final(target)@.subrange(0, h)) && wire_index(final(target)@.subrange(0, h)) == old(self).message_index as u64),
+""",
+    rewrites=[
+        ('return Err(e.into());', 'return Err(e);', 1, 'R6 (error conversion folded into the shim)'),
+        ("""let data_target = target
+                .get_mut(length..total_length)
+                .ok_or(SyncError::BufferTooSmall)?;
+            data_target.copy_from_slice(&command_data);""",
+         """copy_into(target, length, total_length, &command_data).ok_or(SyncError::BufferTooSmall)?;""", 1, 'R18'),
+        ("""*self
+                    .to_send
+                    .get_mut(next_send)
+                    .assume("send index in bounds")? = resume;""",
+         """set_at(&mut self.to_send, next_send, resume).assume("send index in bounds")?;""", 1, 'R17'),
+    ],
+    inserts=[
+        ('before', 'let total_length = length', """let ghost hdr0 = target@.subrange(0, length as int);"""),
+        ('after', 'length = total_length;', """proof { assert(target@.subrange(0, hlen as int) == hdr0); }"""),
+        ('after', 'length = Self::write_sync_type(target, message)?;', """let ghost hlen = length;"""),
+    ])
+
 
 def build(crm='100'):
-    return build_unit(PRELUDE.replace('CRM', crm), [('impl SyncResponder', [GET_COMMANDS, GET_NEXT])])
+    return build_unit(PRELUDE.replace('CRM', crm), [('impl SyncResponder', [GET_COMMANDS, GET_NEXT, PUSH])])
